@@ -126,6 +126,9 @@ fn k04() -> en::Class {
     c.binary.push(Box::new(|a, p| Some(PaddedBy(a, p))));
     c.binary.push(Box::new(|a, s| if en::nn(&a) && en::nn(&s) { Some(SepBy(a, s, Bounds::new(0, None), false, true, Sink::Bare)) } else { None }));
     c.ternary.push(Box::new(|a, o, c| Some(DelimitedBy(a, o, c))));
+    c.unary.push(Box::new(|a| Some(Ext(a, true))));
+    c.unary.push(Box::new(|a| Some(Ext(a, false))));
+    c.unary.push(Box::new(|a| Some(CustomNest(a))));
     c
 }
 
